@@ -1,10 +1,15 @@
-(* C02 — parsed values denote exactly what the JSON text denotes (proved part).
+(* C02 — parsed values denote exactly what the JSON text denotes.
+   Structural clause (the C02_documents theorems): for every input, Parser and gen.Parser accept exactly
+   the texts the reference parser accepts and deliver its documents, number literals replaced
+   by the number builder's result (ValueSim.v).
    Integer clause: on the digit-at-a-time path every plain integer literal whose magnitude
    fits int64 is delivered as that int64 (any number of digits, either sign).
-   The structural part (strings, escapes, member order, duplicate keys) and the float/big text
-   are decided by correspondence against the reference parser RefParse.v; see DESIGN.md. *)
+   The float/big text, the scan-ahead path and the SEN front-end are decided by correspondence
+   against the reference parser RefParse.v; see DESIGN.md. *)
 From Coq Require Import Init.Byte ZArith List Bool.
 Require Import Ojg.Base.Bytes Ojg.Base.Jv Ojg.Json.Number Ojg.Json.NumberFacts.
+Require Import Ojg.Json.Machine Ojg.Json.Ref Ojg.Json.RefParse Ojg.Json.Sweep Ojg.Json.DataInv Ojg.Json.Frontends.
+Require Import Ojg.Json.Sweep_parser Ojg.Json.Sweep_gen Ojg.Json.DSweeps Ojg.Json.ValueSim Ojg.Json.ValueSimSweeps.
 Import ListNotations.
 Open Scope Z_scope.
 
@@ -19,3 +24,49 @@ Proof. exact no_wrap_digit. Qed.
 
 Print Assumptions C02_int_clause.
 Print Assumptions C02_no_wrap.
+
+
+(* Structural clause, for every input: Parser and gen.Parser (single-document and multi-document
+   modes) accept exactly the texts the reference parser RefParse.v accepts and deliver its
+   documents, each number literal t replaced by what the number builder makes of t (see
+   ValueSim.v). Strings with every escape, member order, duplicate keys (last one wins),
+   nesting and top-level sequences are exact. *)
+Definition C02_documents (one : bool) (K : cfg) : Prop :=
+  forall w,
+    match run_all K w with
+    | OOk docs _ => exists rdocs, ref_parse one false w = Some rdocs /\ docs = map (tr K) rdocs
+    | OErr _ _ => ref_parse one false w = None
+    | _ => False
+    end.
+
+Theorem C02_documents_parser : C02_documents true fe_parser.
+Proof. exact (parse_refines true fe_parser eq_refl sweep_parser dsweep_parser simsweep_parser). Qed.
+Theorem C02_documents_gen : C02_documents true fe_gen.
+Proof. exact (parse_refines true fe_gen eq_refl sweep_gen dsweep_gen simsweep_gen). Qed.
+Theorem C02_documents_parser_multi : C02_documents false fe_parser_multi.
+Proof. exact (parse_refines false fe_parser_multi eq_refl sweep_parser_multi dsweep_parser_multi simsweep_parser_multi). Qed.
+Theorem C02_documents_gen_multi : C02_documents false fe_gen_multi.
+Proof. exact (parse_refines false fe_gen_multi eq_refl sweep_gen_multi dsweep_gen_multi simsweep_gen_multi). Qed.
+
+(* Parse on a byte slice is the machine run, after an optional byte order mark *)
+Theorem C02_parse_bytes_plain : forall K b w, beqb b xef = false -> parse_bytes K (b :: w) = run_all K (b :: w).
+Proof. exact parse_bytes_nobom. Qed.
+Theorem C02_parse_bytes_bom : forall K b w, parse_bytes K (xef :: xbb :: xbf :: b :: w) = run_all K (b :: w).
+Proof. exact parse_bytes_bom. Qed.
+
+(* a value without number leaves is delivered unchanged *)
+Theorem C02_no_numbers_exact : forall K v, nonum v = true -> tr K v = v.
+Proof. exact tr_nonum. Qed.
+
+(* non-vacuity: {"a":[1,"x\né",true],"a":null} [2.5]   (multi-document mode) *)
+Example C02_documents_example :
+  let w := map (fun n => n2b n)
+    [123;34;97;34;58;91;49;44;34;120;92;110;92;117;48;48;101;57;34;44;116;114;117;101;93;44;34;98;34;58;110;117;108;108;125;32;91;50;46;53;93]%N in
+  run_all fe_parser_multi w =
+    OOk [JObj [([x61], JArr [JInt 1; JStr [x78; x0a; xc3; xa9]; JBool true]); ([x62], JNull)]; JArr [JFloat [x32; x2e; x35]]] [] /\
+  ref_parse false false w =
+    Some [JObj [([x61], JArr [JBig [x31]; JStr [x78; x0a; xc3; xa9]; JBool true]); ([x62], JNull)]; JArr [JBig [x32; x2e; x35]]].
+Proof. vm_compute. split; reflexivity. Qed.
+
+Print Assumptions C02_documents_parser.
+Print Assumptions C02_documents_gen_multi.
